@@ -47,6 +47,38 @@ func checkC17(p *Prog, r *Report) {
 		r.Saw("func " + fnName(f))
 	}
 
+	/* 0. On the real file system the directory itself is the root of the
+	FS which is globbed (os.DirFS(source)): fs.Sub of an os.DirFS puts the
+	directory's own name in front of every pattern, where its "[", "*", "?"
+	and "\\" are pattern syntax — a directory called funcs[v2] then has no
+	candidates at all. */
+	{
+		n := 0
+		for _, fn := range p.Funcs() {
+			if nil == fn.Pkg || !strings.HasSuffix(fn.Pkg.Pkg.Path(), "/"+sffPkg) {
+				continue
+			}
+			eachInstr(fn, func(i ssa.Instruction) {
+				c, ok := i.(*ssa.Call)
+				if !ok || "io/fs.Sub" != calleeName(c.Common()) {
+					return
+				}
+				n++
+				k := fmt.Sprintf("%s:fs.Sub#%d", fnName(fn), n)
+				bad := false
+				for _, x := range p.rootsUp(valueRoots(c.Common().Args[0], nil), nil) {
+					if "call" == x.Kind && "os.DirFS" == x.Callee {
+						bad = true
+					}
+				}
+				if bad {
+					rCand.Bad(k, posOf(c), "the real directory is reached as fs.Sub(os.DirFS(parent), name): the directory's own name becomes part of every glob pattern, so a name with [, *, ? or \\ in it selects nothing (or something else)")
+				} else {
+					rCand.OK(k, posOf(c), "fs.Sub only of a caller-supplied FS")
+				}
+			})
+		}
+	}
 	/* 1. Candidates. */
 	var glob, compact, sortNames *ssa.Call
 	for _, f := range withAnons(fd) {
@@ -459,6 +491,12 @@ func checkC17(p *Prog, r *Report) {
 			eachInstr(f, func(i ssa.Instruction) {
 				if u, ok := i.(*ssa.UnOp); ok && token.MUL == u.Op && nil == live {
 					if fv, _ := fieldAddrOf(u.X); fv == filtersF {
+						live = i
+					}
+				}
+				/* Kept behind an atomic pointer or value: its Load. */
+				if c := callCommon(i); nil != c && nil == live && 0 != len(c.Args) && strings.HasSuffix(calleeName(c), ").Load") {
+					if fv, _ := fieldAddrOf(c.Args[0]); fv == filtersF {
 						live = i
 					}
 				}
